@@ -425,7 +425,10 @@ fn run_raw(bin: &str, args: &[Vec<u8>], ceiling: Duration) -> super::c15::ProcOu
 /// and `ngen` values composed from the same pieces with `seed` (the same list in every shard).
 /// Every value here names no output mode / is no format string for the unchanged tool (probed);
 /// valid look-alikes (`format=é`, `json=`, `legacy=`) are deliberately absent.
-fn invalid_value_lines(seed: u64, ngen: usize) -> Vec<(String, Vec<Vec<u8>>)> {
+/// `cap`: at most so many lines — the first `CORE` fixed `-o` values, the not-UTF-8 query and `-o`
+/// value, and a sample (by `seed`) of all the others.
+fn invalid_value_lines(seed: u64, ngen: usize, cap: Option<usize>) -> Vec<(String, Vec<Vec<u8>>)> {
+    const CORE: usize = 9;
     // characters whose lower- or upper-case form has another UTF-8 length, or more than one char
     const CASE_LEN: &[&str] = &["\u{212A}", "\u{2126}", "\u{130}", "\u{1E9E}", "\u{DF}", "\u{FB01}", "\u{149}", "\u{23A}", "\u{1F88}"];
     // same length in either case, combining marks, 4-byte characters, invisible ones
@@ -440,6 +443,10 @@ fn invalid_value_lines(seed: u64, ngen: usize) -> Vec<(String, Vec<Vec<u8>>)> {
     o_values.push("\u{2126}=\u{E9}".into());
     o_values.push("\u{130}=\u{E9}".into());
     o_values.push("\u{130}\u{130}=x".into());
+    for v in ["=", "=x", "x="] {
+        o_values.push(v.into());
+    }
+    // (the values up to here are the core that is run whatever the cap)
     o_values.push("x=\u{212A}".into());
     o_values.push("\u{E9}=\u{E9}".into());
     o_values.push("a\u{301}=\u{301}".into());
@@ -455,7 +462,7 @@ fn invalid_value_lines(seed: u64, ngen: usize) -> Vec<(String, Vec<Vec<u8>>)> {
     o_values.push("format={\u{E9}".into());
     o_values.push("format={a}}\u{130}".into());
     // empty pieces
-    for v in ["=", "=x", "x=", "==", "", " =json"] {
+    for v in ["==", "", " =json"] {
         o_values.push(v.into());
     }
     // control characters
@@ -471,11 +478,11 @@ fn invalid_value_lines(seed: u64, ngen: usize) -> Vec<(String, Vec<Vec<u8>>)> {
         let mut s = String::new();
         for _ in 0..r.below(4) {
             match r.below(10) {
-                0..=3 => s.push_str(r.pick(CASE_LEN)),
-                4..=6 => s.push_str(r.pick(OTHER)),
-                7 => s.push_str(r.pick(CTRL)),
-                8 => s.push_str(r.pick(MODES)),
-                _ => s.push_str(r.pick(&["x", "J", " ", "-", "{", "}"])),
+                0..=3 => s.push_str(*r.pick(CASE_LEN)),
+                4..=6 => s.push_str(*r.pick(OTHER)),
+                7 => s.push_str(*r.pick(CTRL)),
+                8 => s.push_str(*r.pick(MODES)),
+                _ => s.push_str(*r.pick(&["x", "J", " ", "-", "{", "}"])),
             }
         }
         s
@@ -498,12 +505,13 @@ fn invalid_value_lines(seed: u64, ngen: usize) -> Vec<(String, Vec<Vec<u8>>)> {
     }
     let b = |s: &str| s.as_bytes().to_vec();
     let mut lines: Vec<(String, Vec<Vec<u8>>)> = vec![];
+    let mut core: Vec<usize> = (0..CORE + 3).collect();
     for (i, v) in o_values.iter().enumerate() {
         // the three spellings of the option in turn
         let (sp, args) = match i % 3 {
             0 => ("-o", vec![b("*"), b("-o"), b(v)]),
             1 => ("--output=", vec![b("*"), b(&format!("--output={}", v))]),
-            _ => ("-oV", vec![b("-o"), b(v), b("*")]),
+            _ => ("-o,query-last", vec![b("-o"), b(v), b("*")]),
         };
         // `-o ''` attached is `-o` followed by the query: another command line
         let args = if v.is_empty() { vec![b("*"), b("-o"), b("")] } else { args };
@@ -527,7 +535,20 @@ fn invalid_value_lines(seed: u64, ngen: usize) -> Vec<(String, Vec<Vec<u8>>)> {
         ("option-name", vec![b("*"), b"--outp\xff".to_vec()]),
     ];
     for (name, args) in raw {
+        if name == "query" || name == "o-value" {
+            core.push(lines.len());
+        }
         lines.push((format!("args/not-utf8/{}", name), args));
+    }
+    if let Some(cap) = cap {
+        let mut rest: Vec<usize> = (0..lines.len()).filter(|i| !core.contains(i)).collect();
+        r.shuffle(&mut rest);
+        rest.truncate(cap.saturating_sub(core.len()));
+        let mut i = 0;
+        lines.retain(|_| {
+            i += 1;
+            core.contains(&(i - 1)) || rest.contains(&(i - 1))
+        });
     }
     lines
 }
@@ -603,7 +624,8 @@ fn check_binary(ctx: &mut Ctx, w: &mut Witnesses) {
     jobs.push(Job { name: "args/bad-format-string".into(), args: sv(&["*", "-o", "format={unclosed"]), endless: false, input: vec![], close_after: None, expect: "usage", raw: None });
     // invalid values of -o / --format / -m (text a shell passes on unchanged: non-ASCII, empty
     // pieces, control characters, very long) and command lines that are not UTF-8
-    for (name, args) in invalid_value_lines(ctx.seed, if ctx.thorough() || w.only.is_some() { 120 } else { 8 }) {
+    let full = ctx.thorough() || w.only.is_some();
+    for (name, args) in invalid_value_lines(ctx.seed, if full { 120 } else { 8 }, if full { None } else { Some(40) }) {
         let text: Vec<String> = args.iter().map(|a| String::from_utf8_lossy(a).to_string()).collect();
         let raw = if args.iter().all(|a| std::str::from_utf8(a).is_ok()) { None } else { Some(args) };
         jobs.push(Job { name, args: text, endless: false, input: vec![], close_after: None, expect: "usage", raw });
